@@ -145,15 +145,31 @@ func (pq *KeyGroupPriorityQueue) Pop() ([]byte, bool) {
 
 func (pq *KeyGroupPriorityQueue) Push(data []byte) {
 	pq.loadFromDB()
-	pq.cache.Push(data)
 
-	// If pushing the item exceeded the cache capacity, evict items until we're back under the limit
-	for pq.cache.IsFull() && !pq.cache.IsEmpty() {
-		pq.cache.PopLast()
-		pq.allDataInCache = false // evicted item is now only in the DB
+	// The cache must stay a prefix of the sorted DB content. When the DB holds
+	// items that aren't cached, an item sorting after the last cached item may
+	// sort after some of them too, so it only goes to the DB.
+	if pq.allDataInCache || pq.sortsWithinCache(data) {
+		pq.cache.Push(data)
+
+		// If pushing the item exceeded the cache capacity, evict items until we're back under the limit
+		for pq.cache.IsFull() && !pq.cache.IsEmpty() {
+			pq.cache.PopLast()
+			pq.allDataInCache = false // evicted item is now only in the DB
+		}
 	}
 
 	pq.db.Put(data, nil) // write-through cache to db
+}
+
+// sortsWithinCache reports whether data sorts at or before the last cached item.
+func (pq *KeyGroupPriorityQueue) sortsWithinCache(data []byte) bool {
+	last, ok := pq.cache.PopLast()
+	if !ok {
+		return false
+	}
+	pq.cache.Push(last)
+	return bytes.Compare(data, last) <= 0
 }
 
 func (pq *KeyGroupPriorityQueue) AssignIndex(i int) {
